@@ -38,7 +38,7 @@ type helpCase struct {
 	Nodes  []helpNode        `json:"nodes"`
 	Target []int             `json:"target"` // node indices from the root to the command whose help is wanted
 	Long   bool              `json:"long"`
-	Via    string            `json:"via"` // method | flag | reject
+	Via    string            `json:"via"` // method | method2 (the second of two help requests on the same object) | flag
 	SetEnv map[string]string `json:"setenv"`
 }
 
@@ -187,6 +187,11 @@ func runHelp(c helpCase) (r helpResult) {
 			if err := cli.VerifInit(cmd); err != nil {
 				panic(err)
 			}
+		}
+		if c.Via == "method2" {
+			// the help of the same command object a second time: the first output is dropped
+			cmd.PrintLongHelp()
+			buf.Reset()
 		}
 		if c.Long {
 			cmd.PrintLongHelp()
